@@ -361,8 +361,10 @@ def claim_spaninfo_drop(cx, res, kf):
                                   "(one stack frame per element, e.g. for the span information a failed parse throws away)", onm)
             continue
         first = [e for e in st.events[:st.notes["in"][0][1]["nev"]] if e[0] == "replace"]
-        if not (len(first) == 1 and first[0][1] == "self" and first[0][2] and first[0][2][-1] == ("c", 1) or (len(first) == 1 and first[0][1] == "self")):
-            res.must_be_unsat(pc, "SpanInfo::drop enters its loop without taking the node's own cdr slot", onm)
+        def cdr_slot(ev):
+            return bool(ev[2]) and ev[2][-1] in (("f", 1), ("c", 1))
+        if not (len(first) == 1 and first[0][1] == "self" and cdr_slot(first[0])):
+            res.must_be_unsat(pc, "SpanInfo::drop enters its loop without taking the node's own cdr slot (slot 1 of the pair)", onm)
             continue
         seen["first"] += 1
         hb, rec = st.notes["in"][-1]
@@ -370,7 +372,7 @@ def claim_spaninfo_drop(cx, res, kf):
         body = [e for e in st.events[rec["nev"]:] if e[0] == "replace"]
         if t.kind == "LOOP_BACK":
             seen["step"] += 1
-            ok = len(body) == 1 and body[0][1] == rec["label"]
+            ok = len(body) == 1 and body[0][1] == rec["label"] and cdr_slot(body[0])
             res.must_be_unsat(pc + [nxt.discr != CONS], "SpanInfo::drop: loop continues on a node that is not a list node", onm)
             if not ok:
                 res.must_be_unsat(pc, "SpanInfo::drop: a pass of the loop does not take the next node's cdr slot", onm)
@@ -429,6 +431,62 @@ def claim_ignored_any(cx0, res, kf):
     res.vacuity.append(("deserialize_ignored_any paths", n > 0))
 
 
+def claim_error_paths_shallow(cx0, res, kf):
+    """Building a deserialization error must not format (Debug / Display) the offending list: `{:?}` of a cons chain costs
+    one stack frame per element (open finding debug-recursive), which would turn every type mismatch on a long list into a
+    stack overflow inside from_value."""
+    from .serde import merged_ctx, serde_stubs
+    cx = merged_ctx()
+    fn = None
+    for n, f in cx.fns.items():
+        if "serde-lexpr/src/value/de.rs" in n and (n.endswith("::invalid_value") or n == "value::de::invalid_value" or n.split("::")[-1] == "invalid_value") and "{closure" not in n:
+            fn = f
+    if fn is None:
+        fn = cx.fns.get("invalid_value") or cx.fns.get("value::de::invalid_value")
+    if fn is None:
+        res.error = "invalid_value not found"
+        return
+    eng = C.make_engine(cx, [], loop_mode="cut", timeout_s=60, max_paths=2000)
+
+    def h_fmt_arg(engine, st, fr, callee, argv, m):
+        st.events.append(("fmt_arg", m.group(1), m.group(2)))
+        return Blob("fmt argument")
+
+    def h_blob(engine, st, fr, callee, argv, m):
+        return Blob(callee.split("::<")[0])
+    eng.stubs = [
+        (re.compile(r"^core::fmt::rt::Argument::<'_>::new_(\w+)::<(.*)>$"), h_fmt_arg),
+        (re.compile(r"^(?:core::fmt::)?Arguments::<'_>::(new|from_str)"), h_blob),
+        (re.compile(r"^(alloc|std)::fmt::format"), h_blob), (re.compile(r"^<String as Deref>::deref$"), h_blob),
+        (re.compile(r"^core::hint::must_use::<"), lambda e, st, fr, c, a, m: a[0]),
+    ] + serde_stubs(cx, eng) + S.COMBINATOR_STUBS + S.CORE_STUBS
+
+    def init(e, st, fr):
+        v = sym_value(cx, e, st, "in", 0)
+        fr.locals[fn.args[0]] = Ref(("V", v))
+        fr.locals[fn.args[1]] = Opaque("&str", "expected", {})
+        return []
+    terms = eng.explore(fn.name, init)
+    res.absorb(eng)
+
+    def onm(m=None):
+        done = RP.stack_op("from_value_mismatch", 300000)
+        res.replays += 1
+        return {"replayed": done is False, "observed": "from_value::<String> of a 300000-element list completed=%r" % done,
+                "witness": {"kind": "stack", "op": "from_value_mismatch", "n": 300000}}
+    n = 0
+    for t in terms:
+        pc = list(t.state.pc)
+        if t.kind == "PANIC":
+            continue      # C18's claims
+        n += 1
+        walked = [e for e in t.state.events if e[0] == "fmt_arg" and re.search(r"Cons|Value|Vec<|\[Value\]|Box<", e[2])]
+        if walked:
+            res.must_be_unsat(pc, "the deserialization error for a wrong kind formats the offending value (%s of %s): a mismatch on a long list "
+                              "recurses once per element" % (walked[0][1], walked[0][2]), onm)
+    res.vacuity.append(("invalid_value paths", n >= 5))
+
+
 CLAIMS = [
     Claim("c16_no_cdr_recursion", "C16", "quick", claim_no_cdr_recursion,
           "Cons::clone and Cons::eq never make a nested Value-level call on a cdr that is itself a pair: they advance along "
@@ -445,6 +503,9 @@ CLAIMS = [
           "its span, and each further one in its loop) before the node reaches the recursive drop glue, and stops only at a "
           "non-list node",
           "arbitrary node kinds; any chain length (loop cut)", configs=("fast",), also=("C03",)),
+    Claim("c16_error_paths_shallow", "C16", "quick", claim_error_paths_shallow,
+          "the error built for a value of the wrong kind never formats that value (no Debug / Display of a list from inside from_value)",
+          "every value kind", configs=("fast",), crate="serde-lexpr"),
     Claim("c16_ignored_any_shallow", "C16", "quick", claim_ignored_any,
           "deserialize_ignored_any (unknown struct fields) answers with visit_unit and never forwards to a walking method",
           "arbitrary value", configs=("fast",), crate="serde-lexpr"),
